@@ -50,8 +50,8 @@ theorem stepT_notBR (U : Universe) (w : World) (s : CState) (st : TState) (hb : 
       (stepT U w s st).2.lk = true ∧ (stepT U w s st).1.cache = s.cache := by
   cases st with
   | bCheck _ _ => simp [TState.isB] at hb
-  | bWrite _ _ => simp [TState.isB] at hb
-  | bRead _ => simp [TState.isB] at hb
+  | bWrite _ _ _ => simp [TState.isB] at hb
+  | bRead _ _ => simp [TState.isB] at hb
   | rCache => simp [TState.isR] at hr
   | rXsi _ => simp [TState.isR] at hr
   | rStamp => simp [TState.isR] at hr
@@ -86,8 +86,8 @@ theorem stepT_notXR (U : Universe) (w : World) (s : CState) (st : TState) (hx : 
     split
     · exact ⟨rfl, rfl, rfl, rfl, rfl⟩
     · split <;> exact ⟨rfl, rfl, rfl, rfl, rfl⟩
-  | bWrite c m => exact ⟨rfl, rfl, rfl, rfl, rfl⟩
-  | bRead c => simp only [stepT]; split <;> exact ⟨rfl, rfl, rfl, rfl, rfl⟩
+  | bWrite c p m => exact ⟨rfl, rfl, rfl, rfl, rfl⟩
+  | bRead c p => simp only [stepT]; split <;> exact ⟨rfl, rfl, rfl, rfl, rfl⟩
   | xCheck _ => simp [TState.isX] at hx
   | xLocal _ _ _ => simp [TState.isX] at hx
   | xPublish _ _ => simp [TState.isX] at hx
@@ -102,14 +102,15 @@ theorem stepT_notXR (U : Universe) (w : World) (s : CState) (st : TState) (hx : 
 
 /-! #### the cache only grows (also during a scan) -/
 
-theorem doBuild_cache_mono (U : Universe) (s : State) (c' : ClassId) (p : Option Str) (c : ClassId)
+theorem doBuild_cache_mono (U : Universe) (s : State) (c' : ClassId) (p : Option Str)
+    (c : ClassId × Option Str)
     (h : (s.cache.lookup c).isSome = true) : ((doBuild U s c' p).1.cache.lookup c).isSome = true := by
   unfold doBuild
   split
   · exact h
   · split
     · simp only
-      by_cases hc : c = c'
+      by_cases hc : c = (c', p)
       · subst hc; simp [lookup_dictSet_self]
       · rw [lookup_dictSet_ne _ _ _ _ hc]; exact h
     · exact h
@@ -125,11 +126,9 @@ theorem doLocalNamesMatch_cache (U : Universe) (s : State) (names : List Str) (c
       simp only
       split
       · rfl
-      · split
-        · rfl
-        · split <;> rfl
+      · split <;> rfl
 
-theorem scanTypes_cache_mono (U : Universe) (names : List Str) (c : ClassId) :
+theorem scanTypes_cache_mono (U : Universe) (names : List Str) (c : ClassId × Option Str) :
     ∀ (l : List ClassId) (s : State) (acc : List Choice), (s.cache.lookup c).isSome = true →
       ((scanTypes U names l s acc).1.cache.lookup c).isSome = true
   | [], _, _, h => h
@@ -147,13 +146,20 @@ theorem scanTypes_cache_mono (U : Universe) (names : List Str) (c : ClassId) :
         | false => exact scanTypes_cache_mono U names c rest s1 acc h1
         | true =>
           simp only
-          split
-          · exact scanTypes_cache_mono U names c rest s1 _ h1
-          · exact h1
+          have h2 := doBuild_cache_mono U s1 c' none c h1
+          cases hdb : doBuild U s1 c' none with
+          | mk s2 r2 =>
+            rw [hdb] at h2
+            cases r2 with
+            | error e => exact h2
+            | ok m =>
+              cases hg : U.get? c' with
+              | none => exact h2
+              | some d => exact scanTypes_cache_mono U names c rest s2 _ h2
 
 /-- outside `reset` the cache never loses a key -/
 theorem stepT_cache_mono (U : Universe) (w : World) (s : CState) (st : TState) (hr : st.isR = false)
-    (c : ClassId) (h : (s.cache.lookup c).isSome = true) :
+    (c : ClassId × Option Str) (h : (s.cache.lookup c).isSome = true) :
     ((stepT U w s st).1.cache.lookup c).isSome = true := by
   cases st with
   | bCheck c' p =>
@@ -161,12 +167,12 @@ theorem stepT_cache_mono (U : Universe) (w : World) (s : CState) (st : TState) (
     split
     · exact h
     · split <;> exact h
-  | bWrite c' m =>
+  | bWrite c' p' m =>
     simp only [stepT]
-    by_cases hc : c = c'
+    by_cases hc : c = (c', p')
     · subst hc; simp [lookup_dictSet_self]
     · rw [lookup_dictSet_ne _ _ _ _ hc]; exact h
-  | bRead c' => simp only [stepT]; split <;> exact h
+  | bRead c' p' => simp only [stepT]; split <;> exact h
   | sScan names d todo n0 acc =>
     simp only [stepT]
     split
@@ -193,27 +199,16 @@ theorem stepT_cache_mono (U : Universe) (w : World) (s : CState) (st : TState) (
   | xGet k q d => simp only [stepT]; split <;> exact h
   | done o => exact h
 
-theorem cache_entry_eq_pure {U : Universe} {uses : List Use} {cache : List (ClassId × Meta)}
-    (hI : ∀ c m, cache.lookup c = some m → ∃ p, (c, p) ∈ uses ∧ pureBuild U c p = .ok m)
-    (hc : consistent U uses) {c : ClassId} {p : Option Str} (hu : (c, p) ∈ uses)
-    {m : Meta} (hl : cache.lookup c = some m) : pureBuild U c p = .ok m := by
-  obtain ⟨p0, hp0, hb⟩ := hI c m hl
-  by_cases hs : nsSensitive U c = true
-  · have := hc (c, p0) hp0 (c, p) hu rfl hs
-    simp at this
-    subst this
-    exact hb
-  · have hs' : nsSensitive U c = false := by simpa using hs
-    rw [pureBuild_insensitive U c hs' p p0]
-    exact hb
+abbrev CacheInv (U : Universe) (cache : List ((ClassId × Option Str) × Meta)) : Prop :=
+  ∀ c p m, cache.lookup (c, p) = some m → pureBuild U c p = .ok m
 
 /-! ### the metadata cache under arbitrary interleavings (no by-fields scans) -/
 
 /-- what is known about a thread inside / after `build(c, p)` -/
 def BuildOK (U : Universe) (s : CState) (c : ClassId) (p : Option Str) : TState → Prop
   | .bCheck c' p' => c' = c ∧ p' = p
-  | .bWrite c' m => c' = c ∧ pureBuild U c p = .ok m
-  | .bRead c' => c' = c ∧ (s.cache.lookup c).isSome = true
+  | .bWrite c' p' m => c' = c ∧ p' = p ∧ pureBuild U c p = .ok m
+  | .bRead c' p' => c' = c ∧ p' = p ∧ (s.cache.lookup (c, p)).isSome = true
   | .done o => o = outMeta (pureBuild U c p)
   | _ => False
 
@@ -225,40 +220,16 @@ theorem BuildOK.notX {U : Universe} {s : CState} {c : ClassId} {p : Option Str} 
     (h : BuildOK U s c p st) : st.isX = false := by
   cases st <;> first | rfl | cases h
 
-def ThreadOK (U : Universe) (uses : List Use) (s : CState) (th : Thread) : Prop :=
+def ThreadOK (U : Universe) (s : CState) (th : Thread) : Prop :=
   match th.prog with
-  | .build c p => (c, p) ∈ uses ∧ BuildOK U s c p th.st
+  | .build c p => BuildOK U s c p th.st
   | .lookup _ _ => th.st.isB = false ∧ th.st.isR = false ∧ th.st.lk = true
   | .scan _ => False
   | .reset => False
 
-structure SysInv (U : Universe) (uses : List Use) (sys : Sys) : Prop where
-  cache : ∀ c m, sys.shared.cache.lookup c = some m → ∃ p, (c, p) ∈ uses ∧ pureBuild U c p = .ok m
-  threads : ∀ th ∈ sys.threads, ThreadOK U uses sys.shared th
-
-theorem mem_progUses : ∀ (progs : List Prog) (c : ClassId) (p : Option Str),
-    Prog.build c p ∈ progs → (c, p) ∈ progUses progs
-  | [], _, _, h => by cases h
-  | .build c' p' :: rest, c, p, h => by
-    simp only [progUses]
-    cases List.mem_cons.mp h with
-    | inl h => cases h; exact List.mem_cons_self
-    | inr h => exact List.mem_cons_of_mem _ (mem_progUses rest c p h)
-  | .lookup _ _ :: rest, c, p, h => by
-    simp only [progUses]
-    cases List.mem_cons.mp h with
-    | inl h => cases h
-    | inr h => exact mem_progUses rest c p h
-  | .scan _ :: rest, c, p, h => by
-    simp only [progUses]
-    cases List.mem_cons.mp h with
-    | inl h => cases h
-    | inr h => exact mem_progUses rest c p h
-  | .reset :: rest, c, p, h => by
-    simp only [progUses]
-    cases List.mem_cons.mp h with
-    | inl h => cases h
-    | inr h => exact mem_progUses rest c p h
+structure SysInv (U : Universe) (sys : Sys) : Prop where
+  cache : CacheInv U sys.shared.cache
+  threads : ∀ th ∈ sys.threads, ThreadOK U sys.shared th
 
 theorem start_lookup (k : Look) (q : Str) :
     (Prog.lookup k q).start.isB = false ∧ (Prog.lookup k q).start.isR = false ∧
@@ -266,67 +237,62 @@ theorem start_lookup (k : Look) (q : Str) :
   simp only [Prog.start]; split <;> exact ⟨rfl, rfl, rfl⟩
 
 theorem SysInv.start (U : Universe) (progs : List Prog) (hnr : noReset progs) (hns : noScan progs)
-    (s0 : State)
-    (h0 : ∀ c m, s0.cache.lookup c = some m → ∃ p, (c, p) ∈ progUses progs ∧ pureBuild U c p = .ok m) :
-    SysInv U (progUses progs) (Sys.start s0 progs) := by
+    (s0 : State) (h0 : CacheInv U s0.cache) : SysInv U (Sys.start s0 progs) := by
   refine ⟨h0, ?_⟩
   intro th hth
   simp only [Sys.start, List.mem_map] at hth
   obtain ⟨pr, hpr, rfl⟩ := hth
   cases pr with
-  | build c p => exact ⟨mem_progUses progs c p hpr, rfl, rfl⟩
+  | build c p => exact ⟨rfl, rfl⟩
   | lookup k q => exact start_lookup k q
   | scan names => exact absurd rfl (hns _ hpr names)
   | reset => exact absurd rfl (hnr _ hpr)
 
 theorem BuildOK.mono {U : Universe} {s s' : CState} {c : ClassId} {p : Option Str} {st : TState}
     (h : BuildOK U s c p st)
-    (hm : (s.cache.lookup c).isSome = true → (s'.cache.lookup c).isSome = true) :
+    (hm : (s.cache.lookup (c, p)).isSome = true → (s'.cache.lookup (c, p)).isSome = true) :
     BuildOK U s' c p st := by
   cases st <;> simp only [BuildOK] at h ⊢ <;> try exact h
-  exact ⟨h.1, hm h.2⟩
+  exact ⟨h.1, h.2.1, hm h.2.2⟩
 
 /-- the stepping thread: cache invariant and its own state -/
-theorem stepT_build_inv {U : Universe} {uses : List Use} (hc : consistent U uses) (w : World)
-    {s : CState} (hI : ∀ c m, s.cache.lookup c = some m → ∃ p, (c, p) ∈ uses ∧ pureBuild U c p = .ok m)
-    {c : ClassId} {p : Option Str} (hu : (c, p) ∈ uses) {st : TState} (hst : BuildOK U s c p st) :
-    (∀ c2 m2, (stepT U w s st).1.cache.lookup c2 = some m2 →
-        ∃ p2, (c2, p2) ∈ uses ∧ pureBuild U c2 p2 = .ok m2) ∧
-      BuildOK U (stepT U w s st).1 c p (stepT U w s st).2 := by
+theorem stepT_build_inv {U : Universe} (w : World) {s : CState} (hI : CacheInv U s.cache)
+    {c : ClassId} {p : Option Str} {st : TState} (hst : BuildOK U s c p st) :
+    CacheInv U (stepT U w s st).1.cache ∧ BuildOK U (stepT U w s st).1 c p (stepT U w s st).2 := by
   cases st with
   | bCheck c' p' =>
     obtain ⟨rfl, rfl⟩ := hst
     simp only [stepT]
-    cases hl : s.cache.lookup c' with
-    | some m => exact ⟨hI, rfl, by simp [hl]⟩
+    cases hl : s.cache.lookup (c', p') with
+    | some m => exact ⟨hI, rfl, rfl, by simp [hl]⟩
     | none =>
       cases hb : pureBuild U c' p' with
-      | ok m => exact ⟨hI, rfl, hb⟩
+      | ok m => exact ⟨hI, rfl, rfl, hb⟩
       | error e =>
         refine ⟨hI, ?_⟩
         simp only [BuildOK, hb]
         rfl
-  | bWrite c' m =>
-    obtain ⟨rfl, hb⟩ := hst
+  | bWrite c' p' m =>
+    obtain ⟨rfl, rfl, hb⟩ := hst
     simp only [stepT]
-    refine ⟨?_, rfl, by simp [lookup_dictSet_self]⟩
-    intro c2 m2 hl2
-    by_cases hcc : c2 = c'
-    · subst hcc
+    refine ⟨?_, rfl, rfl, by simp [lookup_dictSet_self]⟩
+    intro c2 p2 m2 hl2
+    by_cases hcc : (c2, p2) = (c', p')
+    · cases hcc
       rw [lookup_dictSet_self] at hl2
       cases hl2
-      exact ⟨p, hu, hb⟩
+      exact hb
     · rw [lookup_dictSet_ne _ _ _ _ hcc] at hl2
-      exact hI c2 m2 hl2
-  | bRead c' =>
-    obtain ⟨rfl, hsome⟩ := hst
+      exact hI c2 p2 m2 hl2
+  | bRead c' p' =>
+    obtain ⟨rfl, rfl, hsome⟩ := hst
     simp only [stepT]
-    cases hl : s.cache.lookup c' with
+    cases hl : s.cache.lookup (c', p') with
     | none => simp [hl] at hsome
     | some m =>
       refine ⟨hI, ?_⟩
       simp only [BuildOK]
-      rw [cache_entry_eq_pure hI hc hu hl]
+      rw [hI c' p' m hl]
       rfl
   | done o => exact ⟨hI, hst⟩
   | xCheck _ => cases hst
@@ -341,8 +307,8 @@ theorem stepT_build_inv {U : Universe} {uses : List Use} (hc : consistent U uses
   | rStamp => cases hst
 
 /-- **one atomic step of any thread preserves the invariant** -/
-theorem sched_inv {U : Universe} {uses : List Use} (hc : consistent U uses) (w : World) {sys : Sys}
-    (hI : SysInv U uses sys) (i : Nat) : SysInv U uses (sched U w sys i) := by
+theorem sched_inv {U : Universe} (w : World) {sys : Sys}
+    (hI : SysInv U sys) (i : Nat) : SysInv U (sched U w sys i) := by
   unfold sched
   cases hth : sys.threads[i]? with
   | none => exact hI
@@ -350,9 +316,8 @@ theorem sched_inv {U : Universe} {uses : List Use} (hc : consistent U uses) (w :
     have hmem : th ∈ sys.threads := List.mem_of_getElem? hth
     have hok := hI.threads th hmem
     have key : th.st.isR = false ∧
-        (∀ c m, (stepT U w sys.shared th.st).1.cache.lookup c = some m →
-          ∃ p, (c, p) ∈ uses ∧ pureBuild U c p = .ok m) ∧
-        ThreadOK U uses (stepT U w sys.shared th.st).1 ⟨th.prog, (stepT U w sys.shared th.st).2⟩ := by
+        CacheInv U (stepT U w sys.shared th.st).1.cache ∧
+        ThreadOK U (stepT U w sys.shared th.st).1 ⟨th.prog, (stepT U w sys.shared th.st).2⟩ := by
       unfold ThreadOK at hok ⊢
       cases hp : th.prog with
       | lookup k q =>
@@ -361,8 +326,8 @@ theorem sched_inv {U : Universe} {uses : List Use} (hc : consistent U uses) (w :
         exact ⟨hok.2.1, by rw [h4]; exact hI.cache, h1, h2, h3⟩
       | build c p =>
         simp only [hp] at hok ⊢
-        obtain ⟨h1, h2⟩ := stepT_build_inv hc w hI.cache hok.1 hok.2
-        exact ⟨hok.2.notR, h1, hok.1, h2⟩
+        obtain ⟨h1, h2⟩ := stepT_build_inv w hI.cache hok
+        exact ⟨hok.notR, h1, h2⟩
       | scan names => simp only [hp] at hok
       | reset => simp only [hp] at hok
     have hmono := stepT_cache_mono U w sys.shared th.st key.1
@@ -377,14 +342,14 @@ theorem sched_inv {U : Universe} {uses : List Use} (hc : consistent U uses) (w :
       | lookup k q => simpa [hp] using hok'
       | build c p =>
         simp only [hp] at hok' ⊢
-        exact ⟨hok'.1, hok'.2.mono (hmono c)⟩
+        exact hok'.mono (hmono (c, p))
       | scan names => simp only [hp] at hok'
       | reset => simp only [hp] at hok'
 
-theorem runSched_inv {U : Universe} {uses : List Use} (hc : consistent U uses) (w : World) :
-    ∀ (schedule : List Nat) (sys : Sys), SysInv U uses sys → SysInv U uses (runSched U w sys schedule)
+theorem runSched_inv {U : Universe} (w : World) :
+    ∀ (schedule : List Nat) (sys : Sys), SysInv U sys → SysInv U (runSched U w sys schedule)
   | [], _, h => h
-  | i :: rest, _, h => runSched_inv hc w rest _ (sched_inv hc w h i)
+  | i :: rest, _, h => runSched_inv w rest _ (sched_inv w h i)
 
 /-! ### the type index: every published dict object is complete -/
 
@@ -545,8 +510,8 @@ theorem stepT_find_inv {U : Universe} {w : World} {s : CState} {g : Goal} {st : 
   | done o => exact ⟨rfl, fun _ h => h, fun h => h, hstamp, hst⟩
   | sScan _ _ _ _ _ => simp [TState.isS] at hns
   | bCheck _ _ => cases hst
-  | bWrite _ _ => cases hst
-  | bRead _ => cases hst
+  | bWrite _ _ _ => cases hst
+  | bRead _ _ => cases hst
   | rCache => cases hst
   | rXsi _ => cases hst
   | rStamp => cases hst
@@ -555,20 +520,16 @@ theorem FindOK.lookup_notS {U : Universe} {w : World} {s : CState} {k : Look} {q
     (h : FindOK U w s (.lookup k q) st) : st.isS = false := by
   cases st <;> first | rfl | (exact absurd h.1 (by simp))
 
-abbrev CacheInv (U : Universe) (uses : List Use) (cache : List (ClassId × Meta)) : Prop :=
-  ∀ c m, cache.lookup c = some m → ∃ p, (c, p) ∈ uses ∧ pureBuild U c p = .ok m
-
 /-- **one step of the by-fields scan** (one `next()` of the `values()` iterator and
 the visited entry's builds): on a complete dict object whose classes are all
 buildable it neither fails nor touches the index, keeps the cache valid, and
 extends the collected choices exactly as the atomic scan does -/
-theorem stepT_scan_inv {U : Universe} {w : World} {s : CState} {uses : List Use} {names : List Str}
-    (hc : consistent U uses) (hC : CacheInv U uses s.cache)
-    (hU : ∀ c ∈ indexedClasses (pureIndex U w.loaded), (c, none) ∈ uses)
+theorem stepT_scan_inv {U : Universe} {w : World} {s : CState} {names : List Str}
+    (hC : CacheInv U s.cache)
     (hB : ∀ c ∈ indexedClasses (pureIndex U w.loaded), buildable U c = true)
     {d : Nat} {todo : List Str} {n0 : Nat} {acc : List Choice}
     (hst : FindOK U w s (.scan names) (.sScan names d todo n0 acc)) :
-    CacheInv U uses (stepT U w s (.sScan names d todo n0 acc)).1.cache ∧
+    CacheInv U (stepT U w s (.sScan names d todo n0 acc)).1.cache ∧
       (stepT U w s (.sScan names d todo n0 acc)).1.heap = s.heap ∧
       (stepT U w s (.sScan names d todo n0 acc)).1.ref = s.ref ∧
       (stepT U w s (.sScan names d todo n0 acc)).1.sysModules = s.sysModules ∧
@@ -590,7 +551,7 @@ theorem stepT_scan_inv {U : Universe} {w : World} {s : CState} {uses : List Use}
       intro c hcm
       unfold indexedClasses
       exact List.mem_flatMap.mpr ⟨k, hk, hcm⟩
-    have hInv : Inv U ⟨uses, [⟨w.loaded, s.sysModules - 1⟩]⟩ s.toState := by
+    have hInv : Inv U ⟨[⟨w.loaded, s.sysModules - 1⟩]⟩ s.toState := by
       refine ⟨hC, ?_⟩
       by_cases h0 : s.sysModules = 0
       · exact Or.inl h0
@@ -598,9 +559,9 @@ theorem stepT_scan_inv {U : Universe} {w : World} {s : CState} {uses : List Use}
         show s.sysModules = s.sysModules - 1 + 1
         omega
     obtain ⟨s', hr, hI', hx', _⟩ :=
-      scanTypes_spec (t := ⟨uses, [⟨w.loaded, s.sysModules - 1⟩]⟩) hc names
+      scanTypes_spec (t := ⟨[⟨w.loaded, s.sysModules - 1⟩]⟩) names
         (((pureIndex U w.loaded).lookup k).getD []) s.toState (scanAcc U w names pre) hInv
-        (fun c hcm => hB c (hmem c hcm)) (fun c hcm => hU c (hmem c hcm))
+        (fun c hcm => hB c (hmem c hcm))
     rw [hr]
     dsimp only
     have habs : s.absorb s' = { s with cache := s'.cache } := by
@@ -711,27 +672,27 @@ theorem runSched_append (U : Universe) (w : World) : ∀ (a b : List Nat) (sys :
 
 /-! #### builds, lookups and by-fields scans together: `CombInv` -/
 
-def ThreadAll (U : Universe) (w : World) (uses : List Use) (s : CState) (th : Thread) : Prop :=
+def ThreadAll (U : Universe) (w : World) (s : CState) (th : Thread) : Prop :=
   match th.prog with
-  | .build c p => (c, p) ∈ uses ∧ BuildOK U s c p th.st
+  | .build c p => BuildOK U s c p th.st
   | .lookup k q => FindOK U w s (.lookup k q) th.st
   | .scan names =>
-    (∀ c ∈ indexedClasses (pureIndex U w.loaded), (c, none) ∈ uses ∧ buildable U c = true) ∧
+    (∀ c ∈ indexedClasses (pureIndex U w.loaded), buildable U c = true) ∧
       FindOK U w s (.scan names) th.st
   | .reset => False
 
-structure CombInv (U : Universe) (w : World) (uses : List Use) (sys : Sys) : Prop where
-  cache : CacheInv U uses sys.shared.cache
+structure CombInv (U : Universe) (w : World) (sys : Sys) : Prop where
+  cache : CacheInv U sys.shared.cache
   stamp : sys.shared.sysModules = w.mods + 1 → Full U w sys.shared sys.shared.ref
-  threads : ∀ th ∈ sys.threads, ThreadAll U w uses sys.shared th
+  threads : ∀ th ∈ sys.threads, ThreadAll U w sys.shared th
 
 theorem FindOK.notR {U : Universe} {w : World} {s : CState} {g : Goal} {st : TState}
     (h : FindOK U w s g st) : st.isR = false := by
   cases st <;> first | rfl | cases h
 
-theorem sched_comb {U : Universe} {uses : List Use} (hc : consistent U uses) (w : World) {sys : Sys}
-    (hI : CombInv U w uses sys) (i : Nat) :
-    CombInv U w uses (sched U w sys i) ∧
+theorem sched_comb {U : Universe} (w : World) {sys : Sys}
+    (hI : CombInv U w sys) (i : Nat) :
+    CombInv U w (sched U w sys i) ∧
       ∀ d, Full U w sys.shared d → Full U w (sched U w sys i).shared d := by
   unfold sched
   cases hth : sys.threads[i]? with
@@ -740,20 +701,20 @@ theorem sched_comb {U : Universe} {uses : List Use} (hc : consistent U uses) (w 
     have hmem : th ∈ sys.threads := List.mem_of_getElem? hth
     have hok := hI.threads th hmem
     have key : th.st.isR = false ∧
-        CacheInv U uses (stepT U w sys.shared th.st).1.cache ∧
+        CacheInv U (stepT U w sys.shared th.st).1.cache ∧
         (∀ d, Full U w sys.shared d → Full U w (stepT U w sys.shared th.st).1 d) ∧
         (Full U w sys.shared sys.shared.ref →
           Full U w (stepT U w sys.shared th.st).1 (stepT U w sys.shared th.st).1.ref) ∧
         ((stepT U w sys.shared th.st).1.sysModules = w.mods + 1 →
           Full U w (stepT U w sys.shared th.st).1 (stepT U w sys.shared th.st).1.ref) ∧
-        ThreadAll U w uses (stepT U w sys.shared th.st).1 ⟨th.prog, (stepT U w sys.shared th.st).2⟩ := by
+        ThreadAll U w (stepT U w sys.shared th.st).1 ⟨th.prog, (stepT U w sys.shared th.st).2⟩ := by
       unfold ThreadAll at hok ⊢
       cases hp : th.prog with
       | build c p =>
         simp only [hp] at hok ⊢
-        obtain ⟨h1, h2⟩ := stepT_build_inv hc w hI.cache hok.1 hok.2
-        obtain ⟨_, _, h3, h4, h5⟩ := stepT_notXR U w sys.shared th.st hok.2.notX hok.2.notR
-        refine ⟨hok.2.notR, h1, ?_, ?_, ?_, hok.1, h2⟩
+        obtain ⟨h1, h2⟩ := stepT_build_inv w hI.cache hok
+        obtain ⟨_, _, h3, h4, h5⟩ := stepT_notXR U w sys.shared th.st hok.notX hok.notR
+        refine ⟨hok.notR, h1, ?_, ?_, ?_, h2⟩
         · intro d hf; unfold Full at hf ⊢; rw [h3]; exact hf
         · intro hf; unfold Full at hf ⊢; rw [h3, h4]; exact hf
         · intro hs; rw [h5] at hs; have := hI.stamp hs; unfold Full at this ⊢; rw [h3, h4]; exact this
@@ -776,7 +737,7 @@ theorem sched_comb {U : Universe} {uses : List Use} (hc : consistent U uses) (w 
               rfl
             subst hn
             obtain ⟨h0, h1, h2, h3, h4⟩ :=
-              stepT_scan_inv hc hI.cache (fun c hcm => (hok.1 c hcm).1) (fun c hcm => (hok.1 c hcm).2) hst
+              stepT_scan_inv hI.cache hok.1 hst
             refine ⟨rfl, h0, ?_, ?_, ?_, hok.1, h4⟩
             · intro d' hf; unfold Full at hf ⊢; rw [h1]; exact hf
             · intro hf; unfold Full at hf ⊢; rw [h1, h2]; exact hf
@@ -795,7 +756,7 @@ theorem sched_comb {U : Universe} {uses : List Use} (hc : consistent U uses) (w 
       cases hp : th'.prog with
       | build c p =>
         simp only [hp] at hok' ⊢
-        exact ⟨hok'.1, hok'.2.mono (hmono c)⟩
+        exact hok'.mono (hmono (c, p))
       | lookup k q =>
         simp only [hp] at hok' ⊢
         exact hok'.mono key.2.2.1 key.2.2.2.1
@@ -804,14 +765,14 @@ theorem sched_comb {U : Universe} {uses : List Use} (hc : consistent U uses) (w 
         exact ⟨hok'.1, hok'.2.mono key.2.2.1 key.2.2.2.1⟩
       | reset => simp only [hp] at hok'
 
-theorem runSched_comb {U : Universe} {uses : List Use} (hc : consistent U uses) (w : World) :
-    ∀ (schedule : List Nat) (sys : Sys), CombInv U w uses sys →
-      CombInv U w uses (runSched U w sys schedule) ∧
+theorem runSched_comb {U : Universe} (w : World) :
+    ∀ (schedule : List Nat) (sys : Sys), CombInv U w sys →
+      CombInv U w (runSched U w sys schedule) ∧
         ∀ d, Full U w sys.shared d → Full U w (runSched U w sys schedule).shared d
   | [], _, h => ⟨h, fun _ hf => hf⟩
   | i :: rest, _, h => by
-    obtain ⟨h1, h2⟩ := sched_comb hc w h i
-    obtain ⟨h3, h4⟩ := runSched_comb hc w rest _ h1
+    obtain ⟨h1, h2⟩ := sched_comb w h i
+    obtain ⟨h3, h4⟩ := runSched_comb w rest _ h1
     exact ⟨h3, fun d hf => h4 d (h2 d hf)⟩
 
 /-- every unbuildable-free index is safe to scan, or nobody scans -/
@@ -821,41 +782,10 @@ def scanSafe (U : Universe) (w : World) (progs : List Prog) : Prop :=
 instance (U : Universe) (w : World) (progs : List Prog) : Decidable (scanSafe U w progs) :=
   inferInstanceAs (Decidable (_ ∨ _))
 
-theorem mem_progUsesAll_build (U : Universe) (w : World) : ∀ (progs : List Prog) (c : ClassId)
-    (p : Option Str), Prog.build c p ∈ progs → (c, p) ∈ progUsesAll U w progs
-  | [], _, _, h => by cases h
-  | pr :: rest, c, p, h => by
-    cases List.mem_cons.mp h with
-    | inl h => subst h; simp [progUsesAll]
-    | inr h =>
-      have ih := mem_progUsesAll_build U w rest c p h
-      cases pr <;> simp only [progUsesAll] <;> first
-        | exact ih
-        | exact List.mem_cons_of_mem _ ih
-        | exact List.mem_append_right _ ih
-
-theorem mem_progUsesAll_scan (U : Universe) (w : World) : ∀ (progs : List Prog) (names : List Str),
-    Prog.scan names ∈ progs → ∀ c ∈ indexedClasses (pureIndex U w.loaded),
-      (c, none) ∈ progUsesAll U w progs
-  | [], _, h, _, _ => by cases h
-  | pr :: rest, names, h, c, hc => by
-    cases List.mem_cons.mp h with
-    | inl h =>
-      subst h
-      simp only [progUsesAll]
-      exact List.mem_append_left _ (List.mem_map.mpr ⟨c, hc, rfl⟩)
-    | inr h =>
-      have ih := mem_progUsesAll_scan U w rest names h c hc
-      cases pr <;> simp only [progUsesAll] <;> first
-        | exact ih
-        | exact List.mem_cons_of_mem _ ih
-        | exact List.mem_append_right _ ih
-
 theorem CombInv.start (U : Universe) (w : World) (progs : List Prog) (hnr : noReset progs)
-    (hss : scanSafe U w progs) (s0 : State)
-    (hc0 : CacheInv U (progUsesAll U w progs) s0.cache)
+    (hss : scanSafe U w progs) (s0 : State) (hc0 : CacheInv U s0.cache)
     (h0 : s0.sysModules = w.mods + 1 → s0.xsi = pureIndex U w.loaded) :
-    CombInv U w (progUsesAll U w progs) (Sys.start s0 progs) := by
+    CombInv U w (Sys.start s0 progs) := by
   refine ⟨hc0, ?_, ?_⟩
   · intro hs
     simp only [Sys.start, CState.ofState] at hs ⊢
@@ -864,15 +794,13 @@ theorem CombInv.start (U : Universe) (w : World) (progs : List Prog) (hnr : noRe
     simp only [Sys.start, List.mem_map] at hth
     obtain ⟨pr, hpr, rfl⟩ := hth
     cases pr with
-    | build c p => exact ⟨mem_progUsesAll_build U w progs c p hpr, rfl, rfl⟩
+    | build c p => exact ⟨rfl, rfl⟩
     | reset => exact absurd rfl (hnr _ hpr)
     | lookup k q => exact FindOK.start k q
     | scan names =>
       refine ⟨?_, rfl, trivial⟩
-      intro c hcm
-      refine ⟨mem_progUsesAll_scan U w progs names hpr c hcm, ?_⟩
       cases hss with
       | inl h => exact absurd rfl (h _ hpr names)
-      | inr h => exact h c hcm
+      | inr h => exact h
 
 end Xs.Ctx
